@@ -84,7 +84,7 @@ def magnitude(*arrs):
 def shape_form(P, form):
     """P: d x N reference points -> the argument in the requested container form"""
     d, N = P.shape
-    if form in gen.FORMS:
+    if form in gen.FORMS or form == 'ntuple':
         return gen.as_form(P[:, 0], form)
     return np.array(P)
 
@@ -439,10 +439,10 @@ def run(ctx):
         if multi and rng.random() < 0.04:
             M = [16, 17, 64, 100][rng.integers(4)]          # many pose values (a batch path would show here)
         if M > 1 or cname == 'UnitDualQuaternion':
-            form = gen.FORMS[rng.integers(5)]
+            form = (gen.FORMS + ['ntuple'])[rng.integers(6)]
             N = 1
         else:
-            form = gen.FORMS[rng.integers(5)] if rng.random() < 0.5 else 'array2d'
+            form = (gen.FORMS + ['ntuple'])[rng.integers(6)] if rng.random() < 0.5 else 'array2d'
             N = 1 if form != 'array2d' else (d if rng.random() < 0.3 else int(rng.integers(1, 8)))
             if form == 'array2d' and rng.random() < 0.03:
                 N = [64, 100, 1000][rng.integers(3)]          # many points
